@@ -40,6 +40,7 @@ RECURSIVE PyRepr(_)
 PyRepr(x) ==
   CASE x.t = "lit" -> x.v [] x.t = "int" -> ToString(x.v) [] x.t = "flt" -> x.v [] x.t = "str" -> Quote(x.v)
     [] x.t = "list" -> "[" \o JoinS([i \in 1..Len(x.v) |-> PyRepr(x.v[i])], ", ") \o "]"
+    [] x.t = "dict" -> "{" \o JoinS([i \in 1..Len(x.v) |-> Quote(x.v[i][1]) \o ": " \o PyRepr(x.v[i][2])], ", ") \o "}"
 
 RECURSIVE ValueRepr(_)
 ValueRepr(x) ==
